@@ -21,6 +21,9 @@ thread_local! {
     pub static FORCE_MAINTENANCE: std::cell::Cell<bool> = const { std::cell::Cell::new(false) };
     /// plant two-hour-old debris in the .kismet_temp of every level (C15 varies it, together with FORCE_MAINTENANCE)
     pub static STALE_DEBRIS: std::cell::Cell<bool> = const { std::cell::Cell::new(false) };
+    /// build the cache handle before any of its directories exists (they are created and populated afterwards, as
+    /// by another process): what a level holds is looked up at each operation, not when the handle is built
+    pub static LATE_DIRS: std::cell::Cell<bool> = const { std::cell::Cell::new(false) };
     /// thorough tier: the matrices also cover stacks with three read-only levels and values of 0 B and 3 x 8 KiB
     pub static DEEP: std::cell::Cell<bool> = const { std::cell::Cell::new(false) };
     /// an fsx controller to install for the duration of the operation
@@ -249,6 +252,19 @@ pub fn run_cell(cell: &Cell) -> CellRun {
     }
     level_dirs.extend(dirs.reads.iter().cloned());
     let levels = cell.levels();
+    let early_cfg = StackCfg {
+        writer: cell.writer.map(|f| (f, 1usize << 40)),
+        readers: cell.readers.clone(),
+        checker: match cell.checker {
+            0 => Checker::None,
+            1 => Checker::Counting,
+            2 => Checker::Panicking,
+            _ => Checker::ByteEq,
+        },
+        auto_sync: cell.auto_sync,
+    };
+    let log: CheckLog = Arc::new(Mutex::new(Vec::new()));
+    let early_cache = if LATE_DIRS.with(|l| l.get()) { Some(ops::build(&early_cfg, &dirs, Some(log.clone()))) } else { None };
     let mut copies = Vec::new();
     for (i, (&front, &content)) in levels.iter().zip(cell.contents.iter()).enumerate() {
         // every level directory exists (possibly empty); read-only levels keep an unrelated entry
@@ -295,8 +311,10 @@ pub fn run_cell(cell: &Cell) -> CellRun {
         },
         auto_sync: cell.auto_sync,
     };
-    let log: CheckLog = Arc::new(Mutex::new(Vec::new()));
-    let cache = ops::build(&cfg, &dirs, Some(log.clone()));
+    let cache = match early_cache {
+        Some(c) => c,
+        None => ops::build(&cfg, &dirs, Some(log.clone())),
+    };
     let snap_dirs: Vec<PathBuf> = std::iter::once(dirs.write.clone()).chain(dirs.reads.iter().cloned()).collect();
     let before: Vec<Snapshot> = snap_dirs.iter().map(|d| world::snapshot(d)).collect();
     let op = cell.the_op();
